@@ -564,13 +564,22 @@ class FunctionAnalysis:
                     else:
                         st.frozen[prev.id] = LF(0, {("expr", ("old", prev.id), "old", old_iv[0], old_iv[1]): 1})
             newfacts = {}
+            shifting = shift is not None and c[0] == "a" and v[0] >= rng[0] and v[1] <= rng[1]
+            # the old value is about to be forgotten: what the facts say about it is first restated in terms of the forms it is known equal to
+            # (`pos == i + 2` and `i == n` keep `pos == n + 2` alive across `i = 0`)
+            eqs = [] if shifting else self._equal_forms(st, atom)
             for fk, ub in st.facts.items():
                 d = dict(fk)
                 if atom in d:
-                    if shift is not None and c[0] == "a" and v[0] >= rng[0] and v[1] <= rng[1]:
+                    if shifting:
                         newfacts[fk] = ub + d[atom] * shift
+                    else:
+                        for eqf in eqs:
+                            r_ = LF(0, {a_: c_ for a_, c_ in d.items() if a_ != atom}).add(eqf, d[atom])
+                            if r_.t and len(r_.t) <= 4 and atom not in r_.t:
+                                newfacts[r_.key()] = min(newfacts.get(r_.key(), st.facts.get(r_.key(), INF)), ub - r_.k)
                     continue
-                newfacts[fk] = ub
+                newfacts[fk] = min(ub, newfacts.get(fk, INF))
             st.facts = newfacts
             st.cells[c] = v
             st.neq.pop(c, None)
@@ -587,6 +596,22 @@ class FunctionAnalysis:
                 self.kill(st, lambda a: a[0] == "expr" and rules.key_mentions(a[1], lambda k: k[0] == tgt[0] and k[1] == tgt[1]))
             else:
                 self.kill(st, lambda a: a[0] == "expr")
+
+    def _equal_forms(self, st, atom):
+        """all linear forms (not mentioning atom) that the facts prove equal to atom"""
+        out = []
+        for fk, ub in st.facts.items():
+            d = dict(fk)
+            if d.get(atom) != 1 or len(d) < 2 or len(d) > 4:
+                continue
+            neg = tuple(sorted(((a_, -c_) for a_, c_ in d.items()), key=lambda kv: str(kv[0])))
+            ub2 = st.facts.get(neg)
+            if ub2 is None or ub2 != -ub:
+                continue
+            out.append(LF(ub, {a_: -c_ for a_, c_ in d.items() if a_ != atom}))
+            if len(out) >= 3:
+                break
+        return out
 
     def _equal_form(self, st, atom):
         """a linear form (not mentioning atom) that the facts prove equal to atom, or None"""
@@ -865,6 +890,24 @@ class FunctionAnalysis:
             if v is not None and v[0] == v[1]:
                 out_.append(LF(v[0]))
             return out_
+        # two cells counted in the same direction (`data[pos++] = src[i]; i++`) where one does not start at a constant: their DIFFERENCE, relative to
+        # what they are equal to on entry
+        for x in written:
+            if sign.get(x) not in (1, -1):
+                continue
+            for y in written:
+                if y == x or sign.get(y) != sign[x] or not str(x) < str(y):
+                    continue
+                ax, ay = ("cell",) + x, ("cell",) + y
+                for Lx_ in entry_forms(x):
+                    for Ly in entry_forms(y):
+                        if not Lx_.t and not Ly.t:
+                            continue          # both constant: the interval-based facts below cover it
+                        e = LF(0, {ax: 1, ay: -1}).add(Lx_, -1).add(Ly, 1)
+                        if e.t and len(e.t) <= 6:
+                            st.facts[e.key()] = min(st.facts.get(e.key(), INF), -e.k)
+                            e2 = e.scale(-1)
+                            st.facts[e2.key()] = min(st.facts.get(e2.key(), INF), -e2.k)
         for x in written:
             if sign.get(x) not in (1, -1):
                 continue
